@@ -2,6 +2,8 @@
 EXTENDS Forest
 V(i, u, ar, t) == [id |-> i, uid |-> u, flat |-> Flat(u), arches |-> ar, type |-> t]
 SeqChild(p, i) == Append(p, i)
+RECURSIVE JoinDash(_)
+JoinDash(u) == IF Len(u) = 1 THEN u[1] ELSE u[1] \o "-" \o JoinDash(Tail(u))
 MCObj == [ a    |-> V("A", <<"A">>, {"x", "y"}, "variant"),
            aa   |-> V("A", <<"A", "A">>, {"x"}, "variant"),          \* same id as its parent
            ab   |-> V("B", <<"A", "B">>, {"x", "y"}, "addon"),
@@ -42,4 +44,10 @@ MCObj3 == [ a    |-> V("A", <<"A">>, {"x", "y"}, "variant"),
             ab2  |-> V("B", <<"A", "B">>, {"y"}, "addon"),           \* competes with ab for id B (also below a parent outside the forest)
             pab  |-> V("AB", <<"AB">>, {"x"}, "variant"),
             absrc |-> V("B", <<"A", "B">>, {"x", "s"}, "addon") ]    \* lists the pseudo-architecture (token s = "src") its parent does not list: foreign           \* plain top-level variant with the id of the dashed one (sab), another UID
+\* fourth pool (the optional variant_id of add): few objects, every key form
+MCObj4 == [ a    |-> V("A", <<"A">>, {"x", "y"}, "variant"),
+            ab   |-> V("B", <<"A", "B">>, {"x"}, "addon"),
+            at   |-> V("AT", <<"A", "T">>, {"x"}, "variant"),         \* dashed top-level UID, childless
+            b    |-> V("B", <<"B">>, {"x"}, "variant"),
+            pab  |-> V("AB", <<"AB">>, {"x"}, "variant") ]
 =============================================================================
